@@ -74,7 +74,11 @@ func (b *Builder) Str(t types.Type) string {
 		return "[" + strconv.Itoa(int(t.Len())) + "]" + b.realStr(t.Elem())
 	case *types.Chan:
 		_, s := ChanDir(t.Dir())
-		return s + " " + b.realStr(t.Elem())
+		elem := b.realStr(t.Elem())
+		if chanElemNeedsParens(t) {
+			elem = "(" + elem + ")"
+		}
+		return s + " " + elem
 	case *types.Named:
 		name := b.namedStr(t)
 		if pkg := t.Obj().Pkg(); pkg != nil {
@@ -83,6 +87,15 @@ func (b *Builder) Str(t types.Type) string {
 		return name
 	}
 	panic("unsupported str: " + t.String())
+}
+
+// chanElemNeedsParens reports whether t prints as chan (<-chan T).
+func chanElemNeedsParens(t *types.Chan) bool {
+	if t.Dir() != types.SendRecv {
+		return false
+	}
+	elem, ok := types.Unalias(t.Elem()).(*types.Chan)
+	return ok && elem.Dir() == types.RecvOnly
 }
 
 func (b *Builder) namedStr(t *types.Named) string {
@@ -139,7 +152,11 @@ func (b *Builder) reflectTypeArgBaseString(t types.Type) string {
 		return "map[" + b.reflectTypeArgString(t.Key()) + "]" + b.reflectTypeArgString(t.Elem())
 	case *types.Chan:
 		_, s := ChanDir(t.Dir())
-		return s + " " + b.reflectTypeArgString(t.Elem())
+		elem := b.reflectTypeArgString(t.Elem())
+		if chanElemNeedsParens(t) {
+			elem = "(" + elem + ")"
+		}
+		return s + " " + elem
 	}
 	return types.TypeString(t, reflectTypeArgPkgPath)
 }
